@@ -187,3 +187,38 @@ Section Cipher.
     if negb (Nat.eqb (length key) BlockSize) then Err 1
     else if mode then GCMEncrypt key IV in_ A else GCMDecrypt key IV in_ A.
 End Cipher.
+
+(* ---------- sequences of calls on the package --------------------------------------------------------------- *)
+(* sm4_gcm.go declares no package-level variable and its functions keep no reference to their arguments:
+   what the package carries from one call to the next is nothing.  [gcm_state] is that state; every function
+   takes and returns it, so that a history of calls is a fold and "each result depends only on the values of
+   the arguments at call time" is a statement about [gcm_run]. *)
+Definition gcm_state := unit.
+
+Inductive gcm_fn := FnSm4GCM (mode : bool) | FnGCMEncrypt | FnGCMDecrypt | FnGetH.
+
+(* the values the caller's slices hold when the call is made *)
+Record gcm_call := mkCall { c_fn : gcm_fn; c_key : list byte; c_iv : list byte; c_in : list byte; c_a : list byte }.
+
+Inductive gcm_result := RPair (x t : list byte) | RBlock (h : list byte).
+
+Section History.
+  Variable E : list byte -> list byte -> list byte.
+
+  Definition gcm_do (st : gcm_state) (c : gcm_call) : outcome (gcm_state * gcm_result) :=
+    match c_fn c with
+    | FnSm4GCM mode => do '(x, t) <- Sm4GCM E (c_key c) (c_iv c) (c_in c) (c_a c) mode; Ok (st, RPair x t)
+    | FnGCMEncrypt => do '(x, t) <- GCMEncrypt E (c_key c) (c_iv c) (c_in c) (c_a c); Ok (st, RPair x t)
+    | FnGCMDecrypt => do '(x, t) <- GCMDecrypt E (c_key c) (c_iv c) (c_in c) (c_a c); Ok (st, RPair x t)
+    | FnGetH => do h <- GetH E (c_key c); Ok (st, RBlock h)
+    end.
+
+  Fixpoint gcm_run (st : gcm_state) (calls : list gcm_call) : outcome (list gcm_result) :=
+    match calls with
+    | [] => Ok []
+    | c :: rest =>
+      do '(st', r) <- gcm_do st c;
+      do rs <- gcm_run st' rest;
+      Ok (r :: rs)
+    end.
+End History.
